@@ -355,7 +355,30 @@ fn check_c12(run: &Run, it: &Item, p: &Problem) {
             }
         }
     }
-    let syms: Vec<String> = p.symbols().into_iter().collect();
+    // the constants of the problem: anthem's own Problem::symbols() UNITED with every constant that the
+    // emitted text uses as `f__symbolic__(c)` (read off the text, so a symbols() that forgets an
+    // occurrence cannot hide the constant from the coverage requirement)
+    let mut symset: std::collections::BTreeSet<String> = p.symbols().into_iter().collect();
+    {
+        // placeholders of sort symbol are written the same way but declared as function constants:
+        // they stand for an unknown symbol and are not part of the chain
+        let placeholders: Vec<String> = text
+            .lines()
+            .filter(|l| l.starts_with("tff(type_function_constant_"))
+            .filter_map(|l| l.split(", type, ").nth(1).and_then(|r| r.split(':').next()).map(|n| n.trim().to_string()))
+            .collect();
+        let pat = "f__symbolic__(";
+        let mut rest = text.as_str();
+        while let Some(k) = rest.find(pat) {
+            rest = &rest[k + pat.len()..];
+            let id: String = rest.chars().take_while(|c| c.is_ascii_alphanumeric() || *c == '_').collect();
+            let lower_start = id.chars().next().map_or(false, |c| c.is_ascii_lowercase() || c == '_');
+            if lower_start && rest[id.len()..].starts_with(')') && !placeholders.contains(&id) {
+                symset.insert(id);
+            }
+        }
+    }
+    let syms: Vec<String> = symset.into_iter().collect();
     run.trans(order.len() as u64 + 1);
     let d = |s: &String| den.get(s).cloned().unwrap_or_else(|| s.clone());
     // two constants with the same denotation would be forced to be distinct: unsound
